@@ -140,11 +140,12 @@ class MultiTaskBCD(BaseSolver):
                             W_acc[ws_, :] = np.sum(
                                 last_K_w[:-1] * c[:, None], axis=0).reshape(
                                     (ws_size + self.fit_intercept, n_tasks))
-                            p_obj = datafit.value(Y, W, XW) + penalty.value(W)
+                            p_obj = (datafit.value(Y, W, XW) +
+                                     penalty.value(W[:n_features]))
                             Xw_acc = (X[:, ws] @ W_acc[ws]
                                       + self.fit_intercept * W_acc[-1])
-                            p_obj_acc = datafit.value(
-                                Y, W_acc, Xw_acc) + penalty.value(W_acc)
+                            p_obj_acc = (datafit.value(Y, W_acc, Xw_acc) +
+                                         penalty.value(W_acc[:n_features]))
                             if _verif.ON:
                                 _verif.emit("extrap", solver="MultiTaskBCD", t=t,
                                             epoch=epoch, w=W, Xw=XW, w_acc=W_acc,
@@ -162,7 +163,7 @@ class MultiTaskBCD(BaseSolver):
                                 w=W, Xw=XW)
 
                 if epoch > 0 and epoch % 10 == 0:
-                    p_obj = datafit.value(Y, W[ws, :], XW) + penalty.value(W)
+                    p_obj = datafit.value(Y, W, XW) + penalty.value(W[:n_features])
 
                     if is_sparse:
                         grad_ws = construct_grad_sparse(
@@ -189,6 +190,7 @@ class MultiTaskBCD(BaseSolver):
                             if max(self.verbose - 1, 0):
                                 print("Early exit")
                             break
+            p_obj = datafit.value(Y, W, XW) + penalty.value(W[:n_features])
             obj_out.append(p_obj)
             if _verif.ON:
                 _verif.emit("outer_end", solver="MultiTaskBCD", t=t, p_obj=p_obj,
